@@ -272,6 +272,25 @@ def Writer.write (w : Writer) (ts : Nat) (items : List Item) : Writer :=
 /-- a write history: `(ts, items)` per call of `Write` -/
 def runWrites (w : Writer) (h : List (Nat × List Item)) : Writer := h.foldl (fun w p => w.write p.1 p.2) w
 
+/-- a **restart**: `NewDefaultMetricLogWriterOfApp` + `initialize` at clock reading `nowMs` on the
+    directory the previous writer left behind, with its own limits.  The constructor keeps no state
+    from the files: it names the next file of the day (`nextFileNameOfTime`), removes the deprecated
+    files according to the *new* limit, creates the file and sets `latestOpSec` to the clock. -/
+def Writer.reopen (w : Writer) (nowMs maxSize maxFiles : Nat) : Writer :=
+  { ({ files := w.files, latestOpSec := 0, maxSize := maxSize, maxFiles := maxFiles, createdSec := nowMs / 1000 } : Writer).roll nowMs
+    with latestOpSec := nowMs / 1000 }
+
+/-- what happens to a log directory: calls of `Write`, and restarts of the writer -/
+inductive Ev where
+  | write (ts : Nat) (items : List Item)
+  | reopen (nowMs maxSize maxFiles : Nat)
+
+def Writer.apply (w : Writer) : Ev → Writer
+  | .write ts items => w.write ts items
+  | .reopen now ms mf => w.reopen now ms mf
+
+def runEvents (w : Writer) (evs : List Ev) : Writer := evs.foldl Writer.apply w
+
 /-- a crash: the last data file keeps only its first `k` bytes -/
 def cutData (fs : Dir) (k : Nat) : Dir := modLast fs fun f => { f with data := f.data.take k }
 /-- a crash: the last index file keeps only its first `k` bytes -/
